@@ -339,6 +339,87 @@ func c04Run(c *fw.Ctx, b fw.Batch) {
 				}
 			}
 		}
+	case "limit-toggle":
+		// While detections run, another goroutine keeps switching the limit between
+		// two values under which the probe has the SAME sequential answer: whichever
+		// limit a detection uses, the answer must be that one (the result depends only
+		// on header, limit and formats - never on a mixture of two limits).
+		type tp struct {
+			in     []byte
+			v1, v2 uint32
+			want   string
+		}
+		var tps []tp
+		o := gen.JSONOpts{MaxDepth: 3, MaxItems: 5, WS: 1, NoSvg: true, AsciiOnly: true}
+		big := []byte("[")
+		for len(big) < 7000 {
+			big = append(append(big, gen.JSONDoc(r, o)...), ',')
+		}
+		big = append(big, "1]"...)
+		csvb := bytes.Repeat([]byte("alpha,beta,gamma\n"), 500)
+		var nd []byte
+		for len(nd) < 6000 {
+			nd = append(append(nd, bytes.TrimSpace(gen.JSONDoc(r, gen.JSONOpts{MaxDepth: 2, MaxItems: 3, NoSvg: true, AsciiOnly: true}))...), '\n')
+		}
+		for _, x := range [][]byte{big, csvb, nd} {
+			for _, pair := range [][2]uint32{{1024, 0}, {3072, 65536}, {500, 6000}, {2000, 1 << 20}, {4096, 0}} {
+				a, bb := leafOf(lib.Detect(x, pair[0])), leafOf(lib.Detect(x, pair[1]))
+				if a == bb {
+					tps = append(tps, tp{x, pair[0], pair[1], a})
+				}
+			}
+		}
+		if len(tps) < 6 {
+			panic("verif harness: too few limit-insensitive probes")
+		}
+		for round := 0; round < b.N; round++ {
+			t := tps[round%len(tps)]
+			stop := make(chan struct{})
+			var tw sync.WaitGroup
+			tw.Add(1)
+			go func() {
+				defer tw.Done()
+				for i := 0; ; i++ {
+					select {
+					case <-stop:
+						return
+					default:
+					}
+					if i%2 == 0 {
+						mimetype.SetLimit(t.v1)
+					} else {
+						mimetype.SetLimit(t.v2)
+					}
+				}
+			}()
+			var wg sync.WaitGroup
+			for g := 0; g < 6; g++ {
+				wg.Add(1)
+				go func(g int) {
+					defer wg.Done()
+					for k := 0; k < 150; k++ {
+						var got string
+						if (g+k)%3 == 0 {
+							m, _ := mimetype.DetectReader(bytes.NewReader(t.in))
+							got = leafOf(m)
+						} else {
+							got = leafOf(mimetype.Detect(t.in))
+						}
+						c.Eval(1)
+						if got != t.want {
+							c.Violate("result-matches-no-limit", fw.InputKey(t.in, t.v1, fmt.Sprintf("Detect/limit-toggle-%d-%d", t.v1, t.v2)), fmt.Sprintf("while the limit alternates between %d and %d (the input gives %s under both) a detection returned %s", t.v1, t.v2, t.want, got), c04Payload{Kind: "limit-toggle", Probe: c04Probe{Name: "limit-toggle", In: t.in, Limit: t.v1, Want: t.want}, Note: fmt.Sprint(t.v2)})
+							return
+						}
+					}
+				}(g)
+			}
+			wg.Wait()
+			close(stop)
+			tw.Wait()
+			c.Count("limit_toggle_rounds", 1)
+			c.Distinct(fmt.Sprintf("toggle|%d|%d|%s", t.v1, t.v2, t.want))
+		}
+		mimetype.SetLimit(3072)
 	case "concurrent":
 		// the history workload on many goroutines (pools shared across Ps), race build
 		var wg sync.WaitGroup
@@ -382,7 +463,7 @@ func init() {
 	fw.Register(&fw.Prop{
 		ID:    "C04",
 		Level: "exploration",
-		Rule: "probes (39 fixed + generated JSON objects / tables / NDJSON, each with an expectation decided by construction: JSON sub-type family, cut JSON, CSV/TSV/NDJSON, blank-line texts, texts of every charset class, HTML/XML with upper-case declarations, binaries) are detected (a) as the first and only detection of a fresh process (one process per probe) and (b) after histories of 1-6 predecessor detections drawn from 29 kinds (satisfied / unsatisfied sub-type queries, parses aborted in a key / after a colon / in a string / in an escape / on a bad token, cut at the limit, nesting bombs with path stacks > 128, deep objects, CSV readers left mid-record, 1 MiB inputs, a failing reader, empty, binary) with GOMAXPROCS=1 and GC off; EVERY ordered pair of predecessor kinds x every fixed probe is run; the pooled parser state seen just before each probe is recorded through the pool-peek hook. Every seed / probe / predecessor input is also detected from read-only pages (a write faults), three times (twice directly, once through a reader), and with 5 different tails / spare-capacity contents beyond the limit. The history workload is repeated on 12 goroutines under the race detector. " +
+		Rule: "probes (39 fixed + generated JSON objects / tables / NDJSON, each with an expectation decided by construction: JSON sub-type family, cut JSON, CSV/TSV/NDJSON, blank-line texts, texts of every charset class, HTML/XML with upper-case declarations, binaries) are detected (a) as the first and only detection of a fresh process (one process per probe) and (b) after histories of 1-6 predecessor detections drawn from 29 kinds (satisfied / unsatisfied sub-type queries, parses aborted in a key / after a colon / in a string / in an escape / on a bad token, cut at the limit, nesting bombs with path stacks > 128, deep objects, CSV readers left mid-record, 1 MiB inputs, a failing reader, empty, binary) with GOMAXPROCS=1 and GC off; EVERY ordered pair of predecessor kinds x every fixed probe is run; the pooled parser state seen just before each probe is recorded through the pool-peek hook. Every seed / probe / predecessor input is also detected from read-only pages (a write faults), three times (twice directly, once through a reader), and with 5 different tails / spare-capacity contents beyond the limit. The history workload is repeated on 12 goroutines under the race detector; in further rounds a goroutine keeps switching the limit between two values under which a long JSON / CSV / NDJSON input has the same sequential answer while 6 goroutines detect it (the answer must be that one). " +
 			"non-trivial = the pooled parser state observed before the probe was dirty (non-zero inspected bytes / path / token / satisfied flag); distinct = distinct (history, probe, pool state) tuples and (tail kind, result) pairs.",
 		Assumptions: []string{
 			"sync.Pool may drop objects: reuse is observed (pool-peek evidence), not forced; under -race pools drop at random",
@@ -409,6 +490,13 @@ func init() {
 				cb[i].Race = true
 			}
 			bs = append(bs, cb...)
+			nt := 40
+			if tier == "thorough" {
+				nt = 1500
+			}
+			tb := batches("limit-toggle", 2, nt, 3000)
+			tb[1].Race = true
+			bs = append(bs, tb...)
 			return bs
 		},
 		Run: c04Run,
@@ -425,6 +513,8 @@ func init() {
 				preds[q.Name] = q
 			}
 			switch p.Kind {
+			case "limit-toggle":
+				c04Run(c, fw.Batch{Kind: "limit-toggle", N: 200})
 			case "tail-poison", "read-only":
 				a := leafOf(lib.Detect(p.Probe.In[:minInt(len(p.Probe.In), int(p.Probe.Limit))], p.Probe.Limit))
 				bb := leafOf(lib.Detect(p.Probe.In, p.Probe.Limit))
